@@ -229,6 +229,15 @@ def main(tier="quick"):
                 seen.add(q)
                 cases.append(Case(pid, backend, q, argscope.extra_metadata(q) + md, {"source": "argscope"}))
                 pid += 1
+        # nested lambdas that re-use ONE parameter name (the inner shadows the outer) with a later use of the outer parameter
+        from mc.checks import c08
+        for q in c08.shadow_family(backend):
+            q1 = q.replace("j2", "j1").replace("j3", "j1")
+            for qq in (q, q1):
+                if qq not in seen:
+                    seen.add(qq)
+                    cases.append(Case(pid, backend, qq, md, {"source": "shadow"}))
+                    pid += 1
         # the partiality programs (partial operations under guards, in tests and arms of conditionals, behind Wheres):
         # the shapes in which scope placement is most delicate
         from mc.checks import c04
